@@ -200,10 +200,10 @@ package goja
 //@   props C03 C10 C15
 //@   requires r != nil && r.vm != nil
 //@   ensures len(r.jobQueue) == 0 && r.vm.interrupted == 0 [queue-dropped-and-interrupt-cleared]
+//@   assigns r.jobQueue, r.vm.interrupted
 
 //@ func (*Runtime).leave
 //@   props C03 C10
-//@   maypanic
 //@   assigns script, r.jobQueue, r.vm.stack
 //@   requires r != nil && r.vm != nil
 //@   loop 1 vars jobs []func()
